@@ -77,6 +77,7 @@ impl<T: RealNumber, D: Distance<Vec<T>, T>> G<T, D> {
     }
 
     // (O) between two expansions: i points visited, k clusters complete
+    #[verifier::opaque]
     pub open spec fn inv_outer(self, y: Seq<i16>, i: int, k: int) -> bool {
         &&& self.sym()
         &&& y.len() == self.n() && self.n() <= i16::MAX
@@ -91,6 +92,7 @@ impl<T: RealNumber, D: Distance<Vec<T>, T>> G<T, D> {
 
     // (E) while cluster k grows from seed i.  st: the stack of indices waiting; (p, pl, pf): the core point p whose neighbour
     // list pl is being scanned, entries pl[pf..] still to be looked at (p = -1: no scan in progress)
+    #[verifier::opaque]
     pub open spec fn inv_exp(self, y: Seq<i16>, st: Seq<int>, i: int, k: int, p: int, pl: Seq<int>, pf: int) -> bool {
         &&& self.sym()
         &&& y.len() == self.n() && self.n() <= i16::MAX
@@ -170,16 +172,38 @@ impl<T: RealNumber, D: Distance<Vec<T>, T>> G<T, D> {
         assert(y.update(idx, v)[j] == c);
     }
 
+    // the invariants are opaque outside the lemmas of this file; the little the code itself needs from them:
+    pub proof fn lemma_outer_basic(self, y: Seq<i16>, i: int, k: int)
+        requires self.inv_outer(y, i, k),
+        ensures y.len() == self.n(), 0 <= k <= i <= self.n(), self.n() <= i16::MAX
+    {
+        reveal(G::inv_outer); reveal(G::inv_exp);
+    }
+    pub proof fn lemma_exp_basic(self, y: Seq<i16>, st: Seq<int>, i: int, k: int, p: int, pl: Seq<int>, pf: int)
+        requires self.inv_exp(y, st, i, k, p, pl, pf),
+        ensures y.len() == self.n(), 0 <= k <= i < self.n(), self.n() <= i16::MAX
+    {
+        reveal(G::inv_outer); reveal(G::inv_exp);
+    }
+    pub proof fn lemma_exp_outlier_not_core(self, y: Seq<i16>, st: Seq<int>, i: int, k: int, p: int, pl: Seq<int>, pf: int, q: int)
+        requires self.inv_exp(y, st, i, k, p, pl, pf), 0 <= q < self.n(), y[q] == -1,
+        ensures !self.core(q)
+    {
+        reveal(G::inv_exp);
+    }
     pub proof fn lemma_init(self, y: Seq<i16>)
         requires self.sym(), y.len() == self.n(), self.n() <= i16::MAX, forall|q: int| 0 <= q < y.len() ==> #[trigger] y[q] == -3,
         ensures self.inv_outer(y, 0, 0)
-    {}
+    {
+        reveal(G::inv_outer); reveal(G::inv_exp);
+    }
 
     // ---- outer loop steps -------------------------------------------------------------------------------------
     pub proof fn lemma_skip(self, y: Seq<i16>, i: int, k: int)
         requires self.inv_outer(y, i, k), i < self.n(), y[i] != -3,
         ensures self.inv_outer(y, i + 1, k)
     {
+        reveal(G::inv_outer); reveal(G::inv_exp);
         // a visited point is an outlier or clustered; the number of clusters is at most the number of visited points
         assert(k <= i + 1);
     }
@@ -188,6 +212,7 @@ impl<T: RealNumber, D: Distance<Vec<T>, T>> G<T, D> {
         requires self.inv_outer(y, i, k), i < self.n(), y[i] == -3, !self.core(i),
         ensures self.inv_outer(y.update(i, -1i16), i + 1, k)
     {
+        reveal(G::inv_outer); reveal(G::inv_exp);
         let y2 = y.update(i, -1i16);
         lemma_used_update(y, i, -1i16, k);
         assert forall|q: int| 0 <= q < self.n() && #[trigger] y2[q] >= 0 && !self.core(q) implies self.core_nb_labelled(y2, q, y2[q] as int) by {
@@ -209,6 +234,7 @@ impl<T: RealNumber, D: Distance<Vec<T>, T>> G<T, D> {
         requires self.inv_outer(y, i, k), i < self.n(), y[i] == -3, self.core(i), enumerates(nbl, self.nbp(i), self.n()),
         ensures self.inv_exp(y.update(i, k as i16), nbl, i, k, i, nbl, 0)
     {
+        reveal(G::inv_outer); reveal(G::inv_exp);
         let y2 = y.update(i, k as i16);
         assert(k < self.n());
         lemma_used_update(y, i, k as i16, k);
@@ -247,7 +273,8 @@ impl<T: RealNumber, D: Distance<Vec<T>, T>> G<T, D> {
     pub proof fn lemma_sym_use(self, a: int, b: int)
         requires self.sym(), 0 <= a < self.n(), 0 <= b < self.n(), self.nb(a, b),
         ensures self.nb(b, a)
-    {}
+    {
+    }
 
     // ---- scanning the neighbour list pl of core point p: entry pl[a] = j ---------------------------------------------
     // undefined -> queued; `push`: j is pushed on the stack (otherwise, if j is undefined or an outlier, it is on the stack already)
@@ -258,6 +285,7 @@ impl<T: RealNumber, D: Distance<Vec<T>, T>> G<T, D> {
         ensures
             self.inv_exp(mark(y, pl[a]), if push { st.push(pl[a]) } else { st }, i, k, p, pl, a + 1)
     {
+        reveal(G::inv_outer); reveal(G::inv_exp);
         let j = pl[a];
         let y2 = mark(y, j);
         let st2 = if push { st.push(j) } else { st };
@@ -316,6 +344,7 @@ impl<T: RealNumber, D: Distance<Vec<T>, T>> G<T, D> {
         requires self.inv_exp(y, st, i, k, p, pl, pl.len() as int),
         ensures self.inv_exp(y, st, i, k, -1, Seq::<int>::empty(), 0)
     {
+        reveal(G::inv_outer); reveal(G::inv_exp);
         assert forall|q: int, j: int| #![trigger self.nb(q, j)]
             0 <= q < self.n() && 0 <= j < self.n() && y[q] == k && self.core(q) && self.nb(q, j)
                 implies settled(y, st, j) by {
@@ -339,6 +368,7 @@ impl<T: RealNumber, D: Distance<Vec<T>, T>> G<T, D> {
         requires self.pop_pre(y, st, i, k), y[st.last()] >= 0,
         ensures self.inv_exp(y, st.drop_last(), i, k, -1, Seq::<int>::empty(), 0)
     {
+        reveal(G::inv_outer); reveal(G::inv_exp);
         let idx = st.last();
         let st2 = st.drop_last();
         assert(0 <= st[st.len() - 1] < self.n());
@@ -360,6 +390,7 @@ impl<T: RealNumber, D: Distance<Vec<T>, T>> G<T, D> {
         requires self.pop_pre(y, st, i, k), y[st.last()] < 0, !self.core(st.last()),
         ensures self.inv_exp(y.update(st.last(), k as i16), st.drop_last(), i, k, -1, Seq::<int>::empty(), 0)
     {
+        reveal(G::inv_outer); reveal(G::inv_exp);
         let idx = st.last();
         let st2 = st.drop_last();
         let y2 = y.update(idx, k as i16);
@@ -399,6 +430,7 @@ impl<T: RealNumber, D: Distance<Vec<T>, T>> G<T, D> {
             &&& y2[i] == k
         })
     {
+        reveal(G::inv_outer); reveal(G::inv_exp);
         let idx = st.last(); let st2 = st.drop_last(); let y2 = y.update(idx, k as i16);
         assert(0 <= st[st.len() - 1] < self.n());
         assert(k < self.n());
@@ -426,6 +458,7 @@ impl<T: RealNumber, D: Distance<Vec<T>, T>> G<T, D> {
         requires self.pop_pre(y, st, i, k), y[st.last()] < 0, self.core(st.last()), enumerates(sec, self.nbp(st.last()), self.n()),
         ensures self.inv_exp(y.update(st.last(), k as i16), st.drop_last(), i, k, st.last(), sec, 0)
     {
+        reveal(G::inv_outer); reveal(G::inv_exp);
         let idx = st.last();
         let st2 = st.drop_last();
         let y2 = y.update(idx, k as i16);
@@ -461,6 +494,7 @@ impl<T: RealNumber, D: Distance<Vec<T>, T>> G<T, D> {
         requires self.inv_exp(y, Seq::<int>::empty(), i, k, -1, Seq::<int>::empty(), 0),
         ensures self.inv_outer(y, i + 1, k + 1)
     {
+        reveal(G::inv_outer); reveal(G::inv_exp);
         let st = Seq::<int>::empty();
         assert forall|q: int| !on(st, q) by { }
         assert forall|q: int| 0 <= q < self.n() implies (#[trigger] y[q] == -3 || y[q] == -1 || 0 <= y[q] < k + 1) by {
@@ -503,6 +537,7 @@ impl<T: RealNumber, D: Distance<Vec<T>, T>> G<T, D> {
             forall|q: int| 0 <= q < self.n() && #[trigger] y[q] == -1 ==> !self.core(q) && !self.has_core_nb(q),
             forall|q: int| 0 <= q < self.n() && !self.core(q) && !self.has_core_nb(q) ==> #[trigger] y[q] == -1,
     {
+        reveal(G::inv_outer); reveal(G::inv_exp);
         assert forall|q: int| 0 <= q < self.n() && self.core(q) implies #[trigger] y[q] >= 0 by {
             assert(y[q] != -3);
             if y[q] == -1 { }
